@@ -368,3 +368,35 @@ Example from_time_examples :
   serial_of_time 253402207200 = 4294104032%N /\ (* jiff's maximum *)
   serial_partial_cmp (serial_of_time 4294967290) (serial_of_time 4294967300) = Ok (Some Lt).
 Proof. vm_compute. auto 10. Qed.
+
+(* ---- commit(true) ---------------------------------------------------------- *)
+(* an untouched SOA: the published serial s becomes (s + 1) mod 2^32, which is
+   strictly newer in RFC 1982 order - also at 0xFFFFFFFF, where it becomes 0 *)
+Lemma commit_bump_newer old : u32 old ->
+  commit_serial old None = Ok ((old + 1) mod M32) /\
+  serial_partial_cmp old ((old + 1) mod M32) = Ok (Some Lt).
+Proof.
+  intros Hu. unfold commit_serial. cbv [commit_bump_addend].
+  destruct (add_gt old 1 Hu) as (s & Hs & _ & Hlt & _); [lia|].
+  rewrite add_total in Hs by lia. injection Hs as <-.
+  rewrite add_total by lia. split; [reflexivity | exact Hlt].
+Qed.
+(* the same when the writer wrote back an SOA with the published serial *)
+Lemma commit_same_soa_bumps old : u32 old ->
+  commit_serial old (Some old) = Ok ((old + 1) mod M32).
+Proof.
+  intros Hu. unfold commit_serial. cbv [commit_bumps_iff_soa_untouched commit_bump_addend].
+  rewrite N.eqb_refl. apply add_total; lia.
+Qed.
+(* an SOA the writer wrote with another serial is kept, whatever the numeric order
+   of the two serials - a zone whose serial crosses 2^32 keeps the writer's SOA *)
+Lemma commit_keeps_written_soa old z : z <> old -> commit_serial old (Some z) = Ok z.
+Proof.
+  intros Hn. unfold commit_serial. cbv [commit_bumps_iff_soa_untouched].
+  destruct (N.eqb_spec z old) as [E|_]; [contradiction|reflexivity].
+Qed.
+Example commit_examples :
+  commit_serial 4294967295 None = Ok 0 /\
+  commit_serial 4294967280 (Some 5) = Ok 5 /\      (* 0xFFFFFFF0 -> 5: the writer's SOA stays *)
+  commit_serial 7 (Some 7) = Ok 8.
+Proof. vm_compute. auto. Qed.
